@@ -138,13 +138,20 @@ def check_program(m, mod, rnd, res, case_base, ilog):
         for T in ALPHA:
             exp = [(n, v) for (n, v, t) in tagged if T in t]
             case = dict(case_base, argi=argi, tag=T)
-            for form, sel in (("dollar", f"f > $x:@{T}"), ("star", f"f(!*:@{T})")):
+            for form, sel in (("dollar", f"f > $x:@{T}"), ("star", f"f(!*:@{T})"), ("dollar-with-neighbour", f"f > $x:@{T}")):
                 res.evaluations += 1
                 res.deciding += 1
                 got = []
                 ilog.calls = []
                 try:
-                    with probing(sel, env=ns, raw=True) as prb:
+                    import contextlib
+
+                    with contextlib.ExitStack() as stack:
+                        if form == "dollar-with-neighbour":
+                            # another probe instruments every binding of f at the same time: the tag
+                            # selector must still capture the tagged bindings only
+                            stack.enter_context(probing("f > $w", env=ns, raw=True))
+                        prb = stack.enter_context(probing(sel, env=ns, raw=True))
                         prb.subscribe(lambda d: got.extend((c.name, prorun.norm(c.value)) for c in d.values()))
                         out = prorun.run_call(mod, mod.f, argi, m["script"])
                 except SelectorError as e:
@@ -168,7 +175,7 @@ def check_program(m, mod, rnd, res, case_base, ilog):
                 # only the selected bindings are instrumented
                 res.deciding += 1
                 bad = [(vn, repr(cat)) for vn, cat in ilog.calls if not match_tag(getattr(tag, T), cat)]
-                if bad:
+                if bad and form != "dollar-with-neighbour":
                     res.violation(dict(case, selector=sel), {"what": "bindings without the tag were routed through interact()", "extra": bad[:6]})
                 if exp and any(n2 not in {n for n, _ in exp} for n2, _ in tv):
                     res.nontrivial_case([m["src"], argi, T, form])
